@@ -84,6 +84,9 @@ HARNESSES = [
     H('c_into_iter', 'C03 C04 C08 C11 C12'),
 ]
 HARNESSES += [
+    # attribute-form function contracts of the index arithmetic: complete over all 64-bit arguments (no loop, no bound)
+    H('fc_add_mod', 'C19 C01 C11', contract_of='crate::add_mod', call='fc_add_mod()', ns_q=[0], ns_t=[0], unwind=2, kani_only=True, untagged='C19 C11'),
+    H('fc_sub_mod', 'C19 C01 C11', contract_of='crate::sub_mod', call='fc_sub_mod()', ns_q=[0], ns_t=[0], unwind=2, kani_only=True, untagged='C19 C11'),
     # iterator protocol, ranges, documented panics
     H('c_iter_script', 'C04 C07 C08 C11'),
     H('c_iter_mut_script', 'C04 C07 C08 C11'),
@@ -191,6 +194,11 @@ for _nm in _C18_ALL:
     if _b.get('name', '').endswith('_w'):
         _e['untagged'] = []
     _extra.append(_e)
+# modular variants: the caller is verified against the CONTRACT of add_mod / sub_mod (stub_verified), not their bodies
+for _nm in ['c_get', 'c_push_back', 'c_push_front', 'c_remove', 'c_as_slices']:
+    _b = _find(_nm)
+    _extra.append(_variant(_b, '_sv', ' '.join(p for p in _b['props'] if p in ('C01', 'C07', 'C19')), ns_q=[3], ns_t=[3, 5], untagged='C01 C19',
+                           stub_verified=['crate::add_mod', 'crate::sub_mod'], kani_only=True))
 HARNESSES += _extra
 
 # BOUNDED STAND-IN (native execution with real injected panics; never run by Kani): unwinding paths of C05 / C06
